@@ -202,16 +202,50 @@ func (w *World) dupKeyFields(tp *Pkg) map[string][]string {
 	if len(m.decl.Recv.List[0].Names) > 0 {
 		recv = m.decl.Recv.List[0].Names[0].Name
 	}
+	// the loops over `gs.XList`: in Validate itself, or in a helper of the package that Validate
+	// hands `gs.XList` to (a long Validate split into one helper per list)
+	type listLoop struct {
+		rs   *ast.RangeStmt
+		coll string
+	}
+	var loops []listLoop
 	for _, s := range m.decl.Body.List {
-		rs, ok := s.(*ast.RangeStmt)
-		if !ok {
+		if rs, ok := s.(*ast.RangeStmt); ok {
+			if sel, ok := unparen(rs.X).(*ast.SelectorExpr); ok && isIdent(sel.X, recv) && strings.HasSuffix(sel.Sel.Name, "List") {
+				loops = append(loops, listLoop{rs, strings.TrimSuffix(sel.Sel.Name, "List")})
+			}
 			continue
 		}
-		sel, ok := unparen(rs.X).(*ast.SelectorExpr)
-		if !ok || !isIdent(sel.X, recv) || !strings.HasSuffix(sel.Sel.Name, "List") {
-			continue
-		}
-		coll := strings.TrimSuffix(sel.Sel.Name, "List")
+		ast.Inspect(s, func(n ast.Node) bool {
+			c, ok := n.(*ast.CallExpr)
+			if !ok {
+				return true
+			}
+			id, ok := unparen(c.Fun).(*ast.Ident)
+			if !ok {
+				return true
+			}
+			h, ok := tp.funcs[id.Name]
+			if !ok || h.decl.Body == nil {
+				return true
+			}
+			hp := paramNames(h.decl.Type.Params)
+			for i, a := range c.Args {
+				sel, ok := unparen(a).(*ast.SelectorExpr)
+				if !ok || !isIdent(sel.X, recv) || !strings.HasSuffix(sel.Sel.Name, "List") || i >= len(hp) {
+					continue
+				}
+				for _, hs := range h.decl.Body.List {
+					if rs, ok := hs.(*ast.RangeStmt); ok && isIdent(unparen(rs.X), hp[i]) {
+						loops = append(loops, listLoop{rs, strings.TrimSuffix(sel.Sel.Name, "List")})
+					}
+				}
+			}
+			return true
+		})
+	}
+	for _, ll := range loops {
+		rs, coll := ll.rs, ll.coll
 		elem := identName(rs.Value)
 		if elem == "" || elem == "_" {
 			continue
